@@ -252,7 +252,10 @@ namespace options
             }
         }
 
-        s << "usage: " << app_name_;
+        // the synopsis is wrapped relative to its own line, not to whatever s already contains
+        std::stringstream head;
+
+        head << "usage: " << app_name_;
 
         std::stringstream usage;
 
@@ -292,10 +295,10 @@ namespace options
         {
             out = out.substr(1);
 
-            nitro::io::terminal::format_padded(s, out, 8 + app_name_.size(), 80);
+            nitro::io::terminal::format_padded(head, out, 8 + app_name_.size(), 80);
         }
 
-        s << std::endl << std::endl;
+        s << head.str() << std::endl << std::endl;
 
         if (!about_.empty())
         {
